@@ -353,6 +353,22 @@ def correspond(ctx):
             if not any(v["signature"] == sig for v in res.violations):
                 res.violations.append({"signature": sig, "what": what,
                                        "input": {"schedule": [list(a) for a in s], "logs": {str(j): l for j, l in logs.items()}, "probe": probe}})
+    # the same shapes with MORE clean-up releases than connections have ended so far (a manager that releases an entry twice
+    # consumes them): outside what the Lean model's schedule alphabet expresses, so these are judged by the three clauses of the
+    # property alone (mutual exclusion, durable state never backwards, the acknowledged index is the one searched)
+    extra = []
+    for b in directed_schedules(rng):
+        i = b.index(("cleanup",))
+        for pos in (i + 1, i + 2, i + 3):
+            if pos <= len(b):
+                v = list(b); v.insert(pos, ("cleanup",)); extra.append(v)
+    for s, (logs, probe, _d) in zip(extra, run_all(ctx, extra)):
+        res.evaluations += 1
+        res.count("schedules with surplus clean-up releases")
+        for sig, what in evaluate(s, logs, probe):
+            if not any(v["signature"] == sig for v in res.violations):
+                res.violations.append({"signature": sig, "what": what + " (schedule with a surplus clean-up release)",
+                                       "input": {"schedule": [list(a) for a in s], "logs": {str(j): l for j, l in logs.items()}, "probe": probe}})
     for s, (logs, probe) in list(zip(scheds, results))[:3]:
         res.sample({"schedule": [" ".join(map(str, a)) for a in s], "replies": {str(j): [o for _, o in l] for j, l in logs.items()}, "probe": probe})
     res.rule = ("random interleavings of 2..3 connections on one service id, each with a script of up to 2 requests "
